@@ -137,7 +137,7 @@ def verify(targets, timeout_s=20, procs=None):
     t0 = time.time()
     groups = {}
     for j in jobs:
-        groups.setdefault(bool(j[0].instantiate), []).append(j)
+        groups.setdefault(j[0].instantiate or False, []).append(j)
     for inst, js in groups.items():
         vs = discharge([o for _, _, o in js], timeout_s=timeout_s, instantiate=inst, procs=procs)
         for (t, c, o), v in zip(js, vs):
